@@ -17,7 +17,7 @@ LEVEL = "exploration"
 RULE = (
     "Hypothesis draws towers 1..3 x steps 1..4 (1x1 included) with per-step met values (repeated conditions allowed; all forcing fields as lists, or only one or two of them with the rest scalar), footprint or "
     "dispersion, optional user time labels whose sort order differs from the series order (newest first, unpadded hours, day-first dates, descending integers), halo default / 0 / explicit, precision, a parallel strategy in {towers, time, both}, max_workers 1..5, parent "
-    "NUM_THREADS in {1, 4}, use_cache on/off, an optional user-supplied surface flux for the serial drivers, the configured ideal source (shape, off-centre location), and a delay table (tower, step) -> {0, 20, 60, 120} ms. Schedule control: "
+    "NUM_THREADS in {1, 4}, use_cache on/off, an optional user-supplied surface flux for the serial drivers, the configured ideal source (shape, off-centre location), tower coordinates corrected by hand on the built configuration in a third of the cases, and a delay table (tower, step) -> {0, 20, 60, 120} ms. Schedule control: "
     "bldfm.interface.run_bldfm_single is wrapped before the pool forks so that every worker sleeps its drawn delay first - the "
     "completion order is a function of the drawn table. Oracle: reference single runs computed serially with one thread and no "
     "cache; run_bldfm_timeseries (per tower), run_bldfm_multitower and run_bldfm_parallel must return tower names in configuration "
@@ -60,6 +60,7 @@ def _case(draw):
         # sweep or a stability sweep at otherwise fixed forcing is a series too
         "vary": draw(st.sampled_from(["all", "all", "wind_dir", "mol", "wind_speed+wind_dir", "ustar"])),
         "user_flux": draw(st.sampled_from([False, False, True])),
+        "nudged": draw(st.sampled_from([False, False, True])),
         "src_loc": draw(st.sampled_from([None, [30.0, 110.0], [125.0, 40.0]])),  # ideal source off the domain centre
         "flux_shape": draw(st.sampled_from(["diamond", "circle", "point"])),
         "delays": [[draw(st.sampled_from([120, 0, 60, 20, 0])) for _ in range(nt)] for _ in range(ntow)],
@@ -100,13 +101,19 @@ def _config(case):
         x, y = 40.0 + 30.0 * k, 50.0 + 20.0 * k
         towers.append({"name": ["north", "alpha", "mid"][k], "z_m": 3.0 + k,
                        "lat": 48.0 + np.degrees(y / R), "lon": 11.0 + np.degrees(x / (R * np.cos(np.radians(48.0))))})
-    return parse_config_dict({
+    cfg = parse_config_dict({
         "domain": dom, "towers": towers, "met": met,
         "solver": dict({"closure": "MOST", "footprint": case["footprint"], "precision": case["precision"],
                         "surface_flux_shape": case.get("flux_shape", "diamond")},
                        **({"src_loc": case["src_loc"]} if case.get("src_loc") else {})),
         "parallel": {"use_cache": case["use_cache"], "max_workers": case["workers"]},
     })
+    if case.get("nudged"):
+        # local coordinates corrected by hand after the configuration was built (surveyed positions): the object the
+        # drivers are given says where the towers are, whatever its lat/lon fields would give
+        for k, t in enumerate(cfg.towers):
+            t.x, t.y = t.x + 2.5 + k, t.y - 3.0
+    return cfg
 
 
 class _Timeout(Exception):
